@@ -1,4 +1,5 @@
 """Shared by C06/C07: run every grammar transformation of cfg.py on generated grammars."""
+import json
 import cfgmodel as M
 from cfgcheck import run_jobs, decode_grammar
 
@@ -14,7 +15,13 @@ def tname(t):
 def unfold_sites(g, rng, k=2):
     sites = [(i, j) for i, (w, h, b) in enumerate(g["rules"]) for j, (kk, v) in enumerate(b) if kk == "N"]
     rng.shuffle(sites)
-    return [("unfold", i, j) for i, j in sites[:k]]
+    # rules that occur more than once (same weight, head and body) are unfolded first: removing "the"
+    # rule must remove one copy only
+    keyf = lambda r: json.dumps(r)
+    dup = {keyf(r) for r in g["rules"] if sum(1 for q in g["rules"] if keyf(q) == keyf(r)) > 1}
+    first = [s for s in sites if keyf(g["rules"][s[0]]) in dup]
+    rest = [s for s in sites if s not in first]
+    return [("unfold", i, j) for i, j in (first[:2] + rest)[: k + len(first[:2])]]
 
 
 def run_transforms(grammars, sr, strs, rng, hashseed=0, with_values=True):
